@@ -284,6 +284,14 @@ theorem at_breakpoint_is_level (start t0 : ℝ) (pre : List (Seg ℝ)) (sg : Seg
   rw [this]
   exact segValue_at_zero sg.curve sg.shape _ _ hdom
 
+/-- The exponential shape at the start of a segment returns the start level whatever the target is —
+    also for a target of exactly 0 (`0⁰ = 1`) and for a start level of 0. -/
+theorem exp_at_segment_start (c sl tl : ℝ) : GenR.segValue c 2 0 sl tl = .ok sl := by
+  unfold GenR.segValue
+  by_cases hs : sl = 0
+  · norm_num [hs]
+  · norm_num [hs, pow_FF_zero]
+
 /-- `within_segment_between_neighbours`: inside a segment the value lies between the levels of the
     two neighbouring breakpoints (step, hold, linear, sine, welch, curvature, exponential with
     levels of one sign, squared with non-negative levels). -/
